@@ -182,3 +182,22 @@ monotone!(u13_monotone_taiko_great, TAIKO_GREAT);
 monotone!(u13_monotone_taiko_ok, TAIKO_OK);
 // NOTE: the same obligation for the approach-rate table (AR_WINDOWS: 1800 / 1200 / 450) did not finish within 40 min,
 // neither as one harness nor split into lower half / upper half / pivot; it is not registered.
+
+//@ obl: id=U13.ar_irrelevant_for_od harness=u13_ar_irrelevant_for_od props=C18,C17 tier=quick kind=bounded budget=900
+//@ fns: BeatmapAttributesBuilder::hit_windows
+//@ bound: bounded: OD fixed to 7.25 and the clock rate to 1.5 (symbolic values make the solver compare two copies of the same float circuit); all four modes, all legacy mod bits, clock rate 1.5, OD flag symbolic; two arbitrary AR overrides (values in [0,10], both flags)
+//@ clause: the OD hit windows do not depend on the AR override at all - neither its value nor its with_mods flag - so an AR setting (documented as irrelevant for taiko and mania) cannot change their hit windows
+#[kani::proof]
+#[kani::unwind(3)]
+fn u13_ar_irrelevant_for_od() {
+    let base = BeatmapAttributesBuilder::new()
+        .mode(any_mode(), kani::any())
+        .mods(kani::any::<u32>())
+        .clock_rate(1.5)
+        .od(7.25, kani::any());
+    let w1 = base.clone().ar(in_0_10(), kani::any()).hit_windows();
+    let w2 = base.ar(in_0_10(), kani::any()).hit_windows();
+    assert!(w1.od_great.to_bits() == w2.od_great.to_bits(), "C18 the AR override does not influence the great hit window");
+    assert!(w1.od_ok.map(f64::to_bits) == w2.od_ok.map(f64::to_bits), "C18 the AR override does not influence the ok hit window");
+    assert!(w1.od_meh.map(f64::to_bits) == w2.od_meh.map(f64::to_bits), "C18 the AR override does not influence the meh hit window");
+}
